@@ -11,8 +11,8 @@
      a keep-alive ping that is unanswered when the client falls asleep is RETRANSMITTED while asleep
      (clause (33,2)); the loop's ping takes the store slot of a Ping call of the API, the PINGRESP
      completes the loop's ping and the API call fails (clause (33,3));
-   - NOT proved: clause (33,1) (a live active client never goes longer than max(KeepAlive, RetryDelay)
-     without a PINGREQ): checked by the monitor on the implementation and on the model in every run;
+   - proved as well, inside the model: clause (33,1) - a live active client never goes longer than
+     max(KeepAlive, RetryDelay) without a PINGREQ (C33_pingreq_at_least_every_period);
    - OUTSIDE the model (nothing is stated, see DESIGN.md): a state change while the loop is inside a
      ping and the channel already holds an unread change (the sender blocks in notifyStateChange - the
      receive loop, the wake-up timer or the API goroutine), and the choice of Go's select between a
@@ -21,7 +21,7 @@ From stdpp Require Import base option list numbers fin_maps nmap.
 From Verif.Base Require Import Bytes.
 From Verif.Codec Require Import Packets Decode Encode.
 From Verif.Gateway Require Import GwTypes.
-From Verif.Client Require Import ClTypes ClStep ClKeepalive Sound_Client Sound_Ka.
+From Verif.Client Require Import ClTypes ClStep ClKeepalive Sound_Client Sound_Ka Sound_KaGap.
 From Verif.Checkers Require Import ChkCl4.
 Open Scope N_scope.
 
@@ -32,6 +32,20 @@ Theorem C33_loop_pings_only_when_active :
         state_at (ka_seen k) (ko_changes (snd (ka_step cfg k ev))) t = Active) ka_init evs.
 Proof. exact ka_ping_only_when_active_history. Qed.
 Print Assumptions C33_loop_pings_only_when_active.
+
+(* Clause (33,1): in every history inside the sequential model a live, active client never goes longer
+   than max(KeepAlive, RetryDelay) without writing a PINGREQ (the loop's ticks while it is idle, the retry
+   schedule of its ping while it is inside one).  Side conditions, executable and folded over the history:
+   ka_user_ok - API call identifiers are below INTERNAL and not reused while pending (harness bookkeeping);
+   ka_clock_ok - no inner advance exhausts the fuel of the model's timer loop. *)
+Theorem C33_pingreq_at_least_every_period :
+  forall cfg evs, wf_cl_cfg cfg -> 0 < k_keepalive cfg ->
+    ka_modelled cfg ka_init evs = true ->
+    ka_run_allb cfg ka_user_ok ka_init evs = true ->
+    ka_run_allb cfg (ka_clock_ok cfg) ka_init evs = true ->
+    forall pc, In pc (kmon_run cfg ka_init kmon_init evs) -> pc <> (33, 1).
+Proof. exact kmon_gap_sound. Qed.
+Print Assumptions C33_pingreq_at_least_every_period.
 
 Theorem C33_refuted_retransmission_while_asleep :
   wf_cl_cfg cfg33 /\ ka_modelled cfg33 ka_init h_retransmit = true /\
